@@ -418,7 +418,10 @@ def rule_const_masks(ctx):
     r.instance(function=b2.nid, saturation_mask_sites=len(m15))
     if not m15:
         r.violate(b2.nid, 'saturation-mask', '0xF<<offset', 'increment_at() does not build the 0xF saturation mask', where=ctx.where(b2.nid))
-    b3 = ctx.body('common::sketch_capacity')
+    # the lower clamp of the sketch capacity: wherever the conversion lives (a free function of `common`, a method of the sketch)
+    clampers = [bb for n_, bb in sorted(ctx.prog.bodies.items()) if bb.kind != 'closure' and n_.lstrip('<').startswith('common::') and
+                any(a.get('val') == 128 for _, t in bb.calls() if norm(str(t.get('callee') or '')).split('::')[-1] == 'max' for a in t['args'])]
+    b3 = ctx.prog.bodies.get('common::sketch_capacity') or (clampers[0] if clampers else ctx.body('common::sketch_capacity'))
     has128 = any(a.get('val') == 128 for _, t in b3.calls() for a in t['args'])
     r.instance(function=b3.nid, clamp_128=has128)
     if not has128:
@@ -569,10 +572,14 @@ def rule_sketch_structure(ctx):
     # `enabled` latch on the paths where it calls it -- so the call happens once, before any lookup has been recorded (a second caller would
     # wipe the recorded counts whenever it grows the table)
     ncall = 0
+    # (the sketch module may offer the resize under another name that adapts the argument: `ensure_capacity_for_cache` -- every function of
+    # the module that reaches the resize is a way in)
+    in_sketch = lambda n_: n_.startswith(('common::frequency_sketch::', '<common::frequency_sketch::'))
+    resize_entries = {ens.nid} | {n_ for n_, b_ in prog.bodies.items() if in_sketch(n_) and b_.kind != 'closure' and ens.nid in prog.reachable_from([n_])}
     for nid, b in sorted(prog.bodies.items()):
-        if nid.startswith(('common::frequency_sketch::', '<common::frequency_sketch::')) or '::tests::' in nid or 'for_testing' in nid:
+        if in_sketch(nid) or '::tests::' in nid or 'for_testing' in nid:
             continue
-        if ens.nid not in prog.callees(nid):
+        if not (resize_entries & prog.callees(nid)):
             continue
         root_ = (b.root or nid) if b.kind == 'closure' else nid
         try:
@@ -580,7 +587,7 @@ def rule_sketch_structure(ctx):
         except PathLimit:
             raise CheckFailure('SKETCH-structure: path limit in %s' % nid)
         for p in ps_:
-            if not any(e[0] == 'call' and e[1] == ens.nid for e in p.events):
+            if not any(e[0] == 'call' and e[1] in resize_entries for e in p.events):
                 continue
             ncall += 1
             latch = any((e[0] == 'write' and any(isinstance(x, tuple) and x and x[0] == 'fld' and x[2] == 'frequency_sketch_enabled' for x in subterms(e[1])) and e[2] == ('c', True)) or
